@@ -398,6 +398,19 @@ func (x *Exec) frameEnv(f *Frame, st *State, header *ssa.BasicBlock) *Env {
 			}
 		}
 	}
+	// mr_idx / mr_n / mr_seq / mrpos(k): the most recent walk over a Go map value (range loop)
+	mxm := 0
+	for id := range st.miters {
+		if id > mxm {
+			mxm = id
+		}
+	}
+	if mi, ok := st.miters[mxm]; ok {
+		env.vars["$miterid"] = mxm
+		env.vars["mr_idx"] = mi.Idx
+		env.vars["mr_n"] = mi.N
+		env.vars["mr_seq"] = mi.Seq
+	}
 	if it, ok := st.iters[maxID]; ok {
 		env.vars["$iter"] = it
 		env.vars["$iterid"] = maxID
@@ -687,6 +700,18 @@ func (x *Exec) loopHeader(f *Frame, st *State, b *ssa.BasicBlock, prev *ssa.Basi
 			for _, a := range cc.Args {
 				if strings.Contains(types.TypeString(a.Type(), nil), "Iterator") {
 					markIter(a)
+				}
+			}
+		}
+	}
+	for blk := range body {
+		for _, ins := range blk.Instrs {
+			if nx, ok := ins.(*ssa.Next); ok {
+				if mv, ok := f.regs[nx.Iter].(*MapIterVal); ok {
+					if mi := st.miters[mv.ID]; mi != nil {
+						mi.Idx = x.freshTerm("mr_idx", SInt)
+						st.assume(And(Ge(mi.Idx, IntLit(0)), Le(mi.Idx, mi.N)))
+					}
 				}
 			}
 		}
